@@ -964,7 +964,7 @@ func nth(els []element, maxLen, i int) []spec {
 
 var (
 	hdrKeys = []string{"a", "b", "x-c", "content-type", "authorization", "x-lunar-k", "accept", "x-9_z.~"}
-	hdrVals = []string{"1", "2", "", "v:w", "a b", "üñí", "x=y;z", " lead", "trail ", "application/json; charset=utf-8", "::", "3"}
+	hdrVals = []string{"1", "2", "", "v:w", "a b", "üñí", "x=y;z", " lead", "trail ", "application/json; charset=utf-8", "::", "3", "100%", "a%20b%2Fc", "%d %s %v", "50%!"}
 	bodies  = []string{"", "b", "{\"k\":1}", "line1\nline2", "\x00\x01", "ünï", strings.Repeat("z", 300)}
 	paths   = []string{"", "/", "/p", "/a/b?c", "/ü"}
 	hosts   = []string{"", "h.com", "h.com:8080"}
